@@ -38,6 +38,12 @@ fn all_ops(mut c: HxCfg) -> HxCfg {
     c
 }
 
+/// plus merges that have to be refused (tree + stray vertex): whatever they leave behind, the history goes on
+fn refused(mut c: HxCfg) -> HxCfg {
+    c.merge_fails = vec![1, 2];
+    c
+}
+
 fn swaps(mut c: HxCfg) -> HxCfg {
     c.clone_swap = true;
     c.reload_swap = true;
@@ -128,7 +134,7 @@ fn seeded5(prop: &'static str, name: &str, d: usize) -> HxCfg {
 fn gc_plan(prop: &'static str, tier: &str) -> Vec<HxCfg> {
     if quick(tier) {
         vec![
-            drain(all_ops(a3(prop, "3 ids, all ops"))),
+            drain(refused(all_ops(a3(prop, "3 ids, all ops, refused merges")))),
             drain(depth(a4(prop, "4 ids"), 7)),
             drain(depth(swaps(a4(prop, "4 ids with clone- and reload-swaps")), 6)),
             drain(depth(a5(prop, "ids 1..4 in 5 slots"), 6)),
@@ -138,7 +144,7 @@ fn gc_plan(prop: &'static str, tier: &str) -> Vec<HxCfg> {
         ]
     } else {
         vec![
-            wall(drain(all_ops(a3(prop, "3 ids, all ops"))), 300),
+            wall(drain(refused(all_ops(a3(prop, "3 ids, all ops, refused merges")))), 300),
             wall(drain(all_ops(a3x(prop, "3 ids, 2 labels, 2 data, all ops"))), 1200),
             wall(drain(a4(prop, "4 ids")), 1200),
             wall(drain(depth(all_ops(a4(prop, "4 ids, all ops")), 10)), 900),
